@@ -23,13 +23,14 @@ def codec_witness(prop, failures, repo, verif, workdir, seed, log):
         return {"found": False, "error": str(e)[:600]}
     tried = 0
     for m in modes:
-        r = twin.run(binary, [m, seed + 1, 400000])
+        crit = {"C11": "wire", "C19": "wire", "C17": "panic"}.get(prop, "bytes")
+        r = twin.run(binary, [m, seed + 1, 400000], crit=crit)
         tried += r["tried"]
         if r["found"]:
             log(f"  witness ({m}, {tried} inputs tried): input={r['input']}")
             log(f"    {r['detail']}")
             return {"found": True, "kind": r["kind"], "input": r["input"], "detail": r["detail"], "inputs_tried": tried,
-                    "search_s": round(time.time() - t0, 1), "replays_on": "real crate built from the checked tree (twin/ against its public API; lines-only encoder via #[path] include of src/encoder.rs)"}
+                    "criterion": crit, "search_s": round(time.time() - t0, 1), "replays_on": "real crate built from the checked tree (twin/ against its public API; lines-only encoder via #[path] include of src/encoder.rs)"}
     log(f"  witness search: no failing input among {tried} (exhaustive small scope + random, boundary-biased)")
     return {"found": False, "inputs_tried": tried, "search_s": round(time.time() - t0, 1)}
 
@@ -68,6 +69,7 @@ def replay(prop, path, repo, verif, workdir, log):
         import ast
         inp = ast.literal_eval(inp) if inp.startswith('"') else inp
     import subprocess
-    p = subprocess.run([binary, kind, inp], capture_output=True, text=True, timeout=120)
+    crit = {"C11": "wire", "C19": "wire", "C17": "panic"}.get(prop, "bytes") if w["kind"] in ("enc", "lines", "dec") else "bytes"
+    p = subprocess.run([binary, kind, inp], capture_output=True, text=True, timeout=120, env=dict(os.environ, TWIN_CRIT=crit))
     log(p.stdout.strip())
     return p.returncode == 1
